@@ -16,12 +16,18 @@
    fits w hs      no HSetCfg of hs lowers N below the occupancy at its moment
    keeps_size N h h is not a configuration change, or one that sets N again
    Lc s k         option_map (codec (conf s)) (L s k)
+   api_step h     h is a fault-free, crash-free request, a wait, or a fault-free
+                  user-wide logout / refresh (the hops that run API calls and do
+                  not empty the cache by definition)
+   keeps_neg h    h is not a configuration change, or one to a negative N
+   left_ok e t l k  the log l has a successful delete of k, or a successful save
+                  under k of a record whose access time is more than e before t
    papi s s'      s' is reached from s by primitive changes: cache.Get, cache.Set,
                   cache.Delete, a direct save, UserSessions, an object mutation,
                   a change of the clean-up queue, creation, RegenerateID *)
 From Sessions Require Import Model.Base Model.Sess Model.Hist Proofs.SessDefs
   Proofs.CacheInv Proofs.CacheInv2 Proofs.CacheInv3 Proofs.CacheInv4
-  Proofs.CacheHist Proofs.CacheHist2 Proofs.CacheHist3 Proofs.CacheHistEx.
+  Proofs.CacheHist Proofs.CacheHist2 Proofs.CacheHist3 Proofs.CacheHist4 Proofs.CacheHistEx.
 From Sessions Require Import Proofs.HistInv3.
 Local Open Scope Z_scope.
 
@@ -112,13 +118,56 @@ Theorem C12H_zero_stays : forall w h,
   c_maxcache (conf (w_st (fst (step w h)))) = 0 /\ cache (w_st (fst (step w h))) = [].
 Proof. exact zero_stays. Qed.
 
+(* ---------------------------------------------------- (c) C12H_unbounded *)
+
+(* With N < 0, in every step that runs API calls (request, wait, user-wide
+   logout / refresh): an entry cached when the step began is still cached under
+   its ID at the end, or the step deleted that ID (EvDelete), or the step saved
+   it under that ID while it was idle — the save carries an access time older
+   than SessionCacheExpiry at the step's clock. No entry leaves for size.
+   (Purge, cache loss and restart empty the cache by definition.) *)
+Theorem C12H_unbounded_step : forall w h,
+  cinv (w_st w) -> c_maxcache (conf (w_st w)) < 0 -> api_step h ->
+  let s' := w_st (fst (step w h)) in let ob := snd (step w h) in
+  forall k, lookup (cache (w_st w)) k <> None ->
+    lookup (cache s') k <> None \/
+    In (EvDelete k true) (ob_evs ob) \/
+    exists r, In (EvSave k r true) (ob_evs ob) /\ c_cacheexpiry (conf (w_st w)) < since (r_access r) (ob_now ob).
+Proof. exact unbounded_step. Qed.
+
+Theorem C12H_unbounded : forall c hs h,
+  c_maxcache c < 0 -> Forall ff_hop hs -> Forall keeps_neg hs -> api_step h ->
+  let w := reach c hs in let s' := w_st (fst (step w h)) in let ob := snd (step w h) in
+  forall k, lookup (cache (w_st w)) k <> None ->
+    lookup (cache s') k <> None \/
+    In (EvDelete k true) (ob_evs ob) \/
+    exists r, In (EvSave k r true) (ob_evs ob) /\ c_cacheexpiry (conf (w_st w)) < since (r_access r) (ob_now ob).
+Proof. exact unbounded_hist. Qed.
+
+(* at the level of compact, in any state with PA's assumptions and N < 0 *)
+Theorem C12H_unbounded_compact : forall s r, cinv s -> c_maxcache (conf s) < 0 ->
+  (exists l, evs (compact s r) = l ++ evs s) /\
+  forall k, lookup (cache s) k <> None ->
+    lookup (cache (compact s r)) k = lookup (cache s) k \/
+    left_ok (c_cacheexpiry (conf s)) (now s) (evs (compact s r)) k.
+Proof. exact compact_neg. Qed.
+
+Theorem C12H_ex_unbounded :
+  let w := reach cNeg h_neg in let ob := snd (step w (mkr 3 [])) in
+  map fst (cache (w_st w)) = [KGen 0; KGen 1] /\
+  map fst (cache (w_st (fst (step w (mkr 3 []))))) = [KGen 2] /\
+  (exists r, In (EvSave (KGen 0) r true) (ob_evs ob) /\ r_access r = 0) /\
+  (exists r, In (EvSave (KGen 1) r true) (ob_evs ob) /\ r_access r = 5) /\
+  ob_now ob = 65.
+Proof. exact ex_unbounded_hist. Qed.
+
 (* ---------------------------------------------------- (d) C12H_flush_hist *)
 
 (* PurgeSessions does not change what any ID resolves to, read through the codec *)
 Theorem C12H_purge_Lc : forall c hs tbl k,
   Forall ff_hop hs ->
   Lc (w_st (fst (step (reach c hs) (HPurge tbl [])))) k = Lc (w_st (reach c hs)) k.
-Proof. intros c hs tbl k H. apply purge_step_Lc. apply reach_cinv. exact H. Qed.
+Proof. exact purge_hist_Lc. Qed.
 
 (* after HPurge: the cache is empty; every object that was cached is stored
    under its cache key as the codec returns it — all fields, the access time
@@ -132,7 +181,7 @@ Theorem C12H_flush_hist : forall c hs tbl,
      lookup (store s') k = Some (codec (conf s) (o_rec ob)) /\
      L s' k = Some (codec (conf s) (o_rec ob))) /\
   (forall k, lookup (cache s) k = None -> lookup (store s') k = lookup (store s) k).
-Proof. intros c hs tbl H. apply purge_step_flush. apply reach_cinv. exact H. Qed.
+Proof. exact purge_hist_flush. Qed.
 
 (* the access time the store receives *)
 Theorem C12H_flush_access : forall c r,
@@ -190,6 +239,10 @@ Print Assumptions C12H_zero.
 Print Assumptions C12H_zero_nogrow.
 Print Assumptions C12H_zero_write.
 Print Assumptions C12H_zero_stays.
+Print Assumptions C12H_unbounded_step.
+Print Assumptions C12H_unbounded.
+Print Assumptions C12H_unbounded_compact.
+Print Assumptions C12H_ex_unbounded.
 Print Assumptions C12H_purge_Lc.
 Print Assumptions C12H_flush_hist.
 Print Assumptions C12H_flush_access.
